@@ -227,7 +227,7 @@ func (e *Engine) onInterest(args ndn.InterestHandlerArgs) {
 	// The reply callback function
 	args.Reply = func(encodedData enc.Wire) error {
 		now := e.timer.Now()
-		if args.Deadline.Before(now) {
+		if !now.Before(args.Deadline) {
 			e.log.WithField("name", name).Warn("Deadline exceeded. Drop.")
 			return ndn.ErrDeadlineExceed
 		}
